@@ -69,7 +69,9 @@ package httpserver
 // process and decoded again (supervisor.C11Respec, harness export) for every
 // further use, because validation dominates the run time; the environment
 // variable VERIF_C11_SKIP=<Kind,...> (development aid for mutation experiments
-// only) replaces the named filter kinds by Mock in generated scenarios.
+// only) replaces the named filter kinds by Mock in generated scenarios;
+// VERIF_C11_NORES=1 / VERIF_C11_ONLYRES=1 (development aids as well) switch the
+// resilience-observable Proxy flavour of mode pipe off / make every scenario one.
 // Pipeline.Close ranges over a Go map: the order in which the filters of a
 // closed generation are closed is not reproducible, nothing observed depends
 // on it (map_ranges is deliberately not used: the rewritten range draws from
@@ -82,6 +84,7 @@ import (
 	"net/http"
 	"net/http/httptest"
 	"net/url"
+	"os"
 	"regexp"
 	"runtime/debug"
 	"sort"
@@ -993,7 +996,11 @@ func c11ExecMux(r *sim.Run, sc *c11MuxSc) {
 
 func c11Gen(rng *sim.Rand, tier string) interface{} {
 	sc := &c11Scenario{}
-	switch x := rng.Intn(20); {
+	x := rng.Intn(20)
+	if os.Getenv("VERIF_C11_ONLYRES") != "" {
+		x = 7
+	}
+	switch {
 	case x < 7:
 		sc.Mode = "mux"
 		sc.Mux = c11GenMux(rng)
@@ -1047,7 +1054,7 @@ func TestVerifC11(t *testing.T) {
 			"non-trivial = a request overlapped an update that changes its answer, or ran on a generation that had already been inherited from / closed, or started after an update that changes its answer; distinct = distinct (specs, ordered request/answer history)",
 		Real: []string{"pkg/object/httpserver mux (newMux, reload, ServeHTTP, search, cache), runtime + HTTPServer object (mode tc)", "pkg/object/pipeline Pipeline (Init, Inherit, Close, Handle)", "pkg/object/trafficcontroller (Create/Apply/Update/Delete Pipeline and TrafficGate, Namespace.GetHandler)",
 			"pkg/filters: ratelimiter, proxy (pools, load balancers, memory cache, resilience wrappers), mock, requestadaptor, responseadaptor, validator, fallback, corsadaptor, builder, headertojson, certextractor", "pkg/supervisor Spec / ObjectEntity", "pkg/util/ratelimiter, pkg/util/ipfilter, pkg/protocols/httpprot, pkg/context"},
-		Stub: []string{"clients (harness tasks, httptest recorders, no sockets)", "backends of the Proxy filter (proxy.fnSendRequest replaced by a scripted backend that can park)", "MuxMapper + backend handlers in mode mux", "park/echo filter kind C11Park registered by the harness", "listener of the HTTPServer object (gracenet.ListenHook -> idle listener)",
+		Stub: []string{"clients (harness tasks, httptest recorders, no sockets)", "backends of the Proxy filter (proxy.fnSendRequest replaced by a scripted backend that can park and, per request script, lets the first attempts fail by transport error / status 503 / answering after 2h while honouring the attempt's context)", "MuxMapper + backend handlers in mode mux", "park/echo filter kind C11Park registered by the harness", "listener of the HTTPServer object (gracenet.ListenHook -> idle listener)",
 			"sync / sync/atomic / math/rand of the instrumented files -> simsync / simatomic / simrand (same semantics + gates)"},
 		Assumptions: []string{
 			"oracle = quiescent twins of the same code: one never-updated instance per generation answers every request of the scenario before traffic starts",
